@@ -17,6 +17,17 @@ Extension (GAPS-C16.md):
   `peptides`) against the spec and the model.
 * input forms of `read_fasta`: compiled-regex enzyme, str / list / tuple / Path file argument,
   keyword arguments omitted where the documented default is meant.
+
+Second extension (GAPS-C16.md, "Second pass"):
+* `grender` / `gdrender` — the *strings* the code hands out (`", "`-joined group names, `"; "`-joined
+  **sorted** values of shared peptides) are compared verbatim with the model's rendering, and across
+  PYTHONHASHSEEDs the raw strings (not only their split, set-wise form) must be identical
+  (`C16_rendered_hash_independent`); `has_decoys` is compared across entry orders and hash seeds.
+* repeated entries (the same name with the same sequence, e.g. overlapping FASTA files) are inside the
+  property (`C16_repeated_entries_meet_spec`): the full spec check runs on the distinct proteins.
+* generator: empty decoy prefix (`C16_empty_prefix_rejected`), names that differ from the prefix in case
+  only / equal the prefix, several digest options at once, `min_length = 0`; `Proteins.decoy_prefix`;
+  the caller's `proteins` dict is not modified by `_group_proteins`.
 """
 from __future__ import annotations
 
@@ -145,7 +156,7 @@ def gen_names(rng, n, prefix, allow_dups=False):
         elif dmode == "paired":
             k = "t" if i < (n + 1) // 2 else "pd"
         else:
-            k = rng.choice(["t", "t", "pd", "od", "mid"])
+            k = rng.choice(["t", "t", "pd", "od", "mid", "case", "bare"])
         kinds.append(k)
     targets = []
     for i, k in enumerate(kinds):
@@ -158,6 +169,10 @@ def gen_names(rng, n, prefix, allow_dups=False):
             names.append(cand if cand not in names else prefix + base[i])
         elif k == "mid":  # prefix inside the name, or a proper prefix of the prefix: still a target
             names.append(rng.choice([base[i] + prefix, prefix[:-1] + base[i] if len(prefix) > 1 else "q" + base[i]]))
+        elif k == "case":  # the prefix in the other letter case: `startswith` is case sensitive, still a target
+            names.append(prefix.swapcase() + base[i])
+        elif k == "bare":  # the name is the prefix itself (a decoy whose target would be the empty name)
+            names.append(prefix if prefix and prefix not in names else prefix + base[i])
         else:
             names.append(prefix + base[i])
     if allow_dups and n >= 2:
@@ -173,12 +188,13 @@ def gen_names(rng, n, prefix, allow_dups=False):
     return names, dmode, style
 
 
-def gen_case(rng, big=False, allow_dups=False):
+def gen_case(rng, big=False, allow_dups=False, repeat=False):
     rows, m, pat = gen_incidence(rng, big)
     n = len(rows)
-    prefix = rng.choice(PREFIXES)
+    # the empty prefix makes every name a decoy name (read_fasta refuses the file): rarely
+    prefix = "" if rng.random() < 0.02 else rng.choice(PREFIXES)
     names, dmode, nstyle = gen_names(rng, n, prefix, allow_dups)
-    dg = rng.choice(["exact", "exact", "exact", "mc", "semi", "clip", "len", "default"])
+    dg = rng.choice(["exact", "exact", "exact", "mc", "semi", "clip", "len", "default", "combo", "min0"])
     body = rng.choice([3, 5, 5, 7])
     digest = dict(enzyme="[KR]", mc=0, clip=False, minl=rng.choice([1, 2, body + 1]), maxl=50, semi=False)
     lead_m = False
@@ -197,6 +213,16 @@ def gen_case(rng, big=False, allow_dups=False):
     elif dg == "len":
         digest["maxl"] = rng.choice([body + 1, 2 * body + 2])
         digest["mc"] = 1
+    elif dg == "combo":  # several options at once (each of the modes above sets one)
+        digest["mc"] = rng.choice([0, 1, 2])
+        digest["clip"] = rng.random() < 0.5
+        lead_m = digest["clip"]
+        digest["semi"] = rng.random() < 0.4
+        digest["minl"] = body if digest["semi"] else rng.choice([1, 2, body + 1])
+        digest["maxl"] = rng.choice([50, 50, 2 * body + 2, body])  # `body` < every peptide: nothing is left
+    elif dg == "min0":  # min_length = 0: the empty peptide of a sequence that ends in a cleavage residue
+        digest["minl"] = 0
+        digest["mc"] = rng.choice([0, 1])
     if dg != "default" and rng.random() < 0.15:
         digest["enzyme"] = rng.choice(["K", "[KR](?!P)"])
     # residues that tell the enzymes apart: R-terminated peptides (not cut by `K`), peptides starting
@@ -213,6 +239,10 @@ def gen_case(rng, big=False, allow_dups=False):
         if not r and rng.random() < 0.5:
             seq = rng.choice(["", "AC", "K"])
         entries.append([nm, seq])
+    if repeat and entries:  # the same protein listed again with the same sequence (overlapping FASTA files)
+        for _ in range(rng.choice([1, 1, 2])):
+            e = rng.choice(entries)
+            entries.insert(rng.randrange(len(entries) + 1), list(e))
     fmt = dict(wrap=rng.choice([0, 0, 60, 7, 1]), desc=rng.random() < 0.4, nfiles=rng.choice([1, 1, 1, 2, 3]),
                trail=rng.random() < 0.7)
     # forms of the call: how the enzyme, the file(s) and the keywords are handed over
@@ -287,7 +317,8 @@ def impl_read(case, entries, tag="a"):
         pr = mokapot.read_fasta(arg, **kw)
     except Exception as e:  # noqa: BLE001
         return ("exc", type(e).__name__, str(e)[:200])
-    return ("ok", dict(pr.peptide_map), dict(pr.shared_peptides), dict(pr.protein_map), bool(pr.has_decoys))
+    return ("ok", dict(pr.peptide_map), dict(pr.shared_peptides), dict(pr.protein_map), bool(pr.has_decoys),
+            pr.decoy_prefix)
 
 
 def entry_pepsets(case, entries):
@@ -308,7 +339,7 @@ def entry_pepsets(case, entries):
 
 def canon_impl(raw):
     """exact form: group names split into member tuples; sets where the code iterates a set"""
-    _, pm, sh, dm, hd = raw
+    _, pm, sh, dm, hd = raw[:5]
     return dict(
         unique={p: tuple(g.split(", ")) for p, g in pm.items()},
         shared={p: frozenset(tuple(g.split(", ")) for g in (s.split("; ") if s else [])) for p, s in sh.items()},
@@ -413,6 +444,45 @@ def parse_model(resp):
     )
 
 
+def render_request(case, pepsets, en=0):
+    """`grender`: the model's result as the strings of the code (group names, sorted '; '-joined values)"""
+    return req("grender", case["prefix"], en, pepsets)
+
+
+def parse_render(resp):
+    if resp.strip() in ("reject-only-decoys", "reject-keyerror"):
+        return resp.strip()
+    v = dec(resp)
+    if not (isinstance(v, list) and len(v) == 5):
+        raise RuntimeError("driver: " + resp[:200])
+    um, sh, gs, dm, hd = v
+    return dict(unique={a_str(p): a_str(g) for p, g in um}, shared={a_str(p): a_str(g) for p, g in sh},
+                groups={a_str(g): frozenset(a_str(x) for x in S) for g, S in gs},
+                pmap={a_str(t): a_str(d) for t, d in dm}, has_decoys=a_bool(hd))
+
+
+def repeats_consistent(pepsets):
+    """every name that occurs several times (with peptides) carries one peptide set"""
+    seen = {}
+    for nm, ps in pepsets:
+        if ps and seen.setdefault(nm, frozenset(ps)) != frozenset(ps):
+            return False
+    return True
+
+
+def distinct_entries(pepsets):
+    """first occurrence of every name that has peptides, other entries as they are (restated independently of
+    the model: what the FASTA 'means' when a protein is listed again with the same peptide set)"""
+    out, seen = [], set()
+    for nm, ps in pepsets:
+        if ps and nm in seen:
+            continue
+        if ps:
+            seen.add(nm)
+        out.append([nm, ps])
+    return out
+
+
 def parse_spec(resp):
     v = dec(resp)
     if v == []:
@@ -434,6 +504,7 @@ def jsonable_canon(c):
         unique=sorted((p, sorted(g)) for p, g in s["unique"].items()),
         shared=sorted((p, sorted(sorted(g) for g in gs)) for p, gs in s["shared"].items()),
         pmap=sorted(s["pmap"].items()),
+        has_decoys=c["has_decoys"],
     )
 
 
@@ -449,6 +520,8 @@ def worker():
         else:
             j = jsonable_canon(canon_impl(raw))
             j["raw_shared"] = sorted(raw[2].items())
+            j["raw_unique"] = sorted(raw[1].items())
+            j["key_order"] = list(raw[1]) + list(raw[2])
             out.append(j)
     cleanup()
     json.dump(out, sys.stdout)
@@ -482,26 +555,41 @@ def eval_cases(chk, cases, perms=2, light=False):
     lines, metas, offs = [], [], []
     for k, c in enumerate(cases):
         ps = entry_pepsets(c, c["entries"])
-        metas.append(ps)
+        # a protein listed again with the same peptide set is inside the property: the spec side (gspec, gwf,
+        # the restated clauses) sees the distinct proteins, the model (`group`, `groupseq`, `grender`) the entries
+        # as they are (it contains the dict overwrite)
+        names = [nm for nm, p in ps if p]
+        rep_kind = "none" if len(set(names)) == len(names) else ("identical" if repeats_consistent(ps) else "conflicting")
+        ps_spec = distinct_entries(ps) if rep_kind == "identical" else ps
+        metas.append((ps, ps_spec, rep_kind))
         offs.append(len(lines))
-        lines += model_requests(c, ps)
+        lines += [req("group", c["prefix"], 0, ps), req("group", c["prefix"], 1, ps),
+                  req("gspec", ps_spec), req("gwf", ps_spec)]
         # the sequence-level model (independent digest oracle): two of three random cases, every 4th of a sweep
         if c["digest"]["enzyme"] in ENZ and (k % 4 == 0 if light else k % 3 != 2):
             lines.append(seq_request(c, en=k % 2))
         else:
             lines.append(None)
+        # the strings of the code: two of three random cases (another third than above), every 4th of a sweep
+        lines.append(render_request(c, ps, en=(k // 2) % 2) if (k % 4 == 1 if light else k % 3 != 0) else None)
+        lines.append(req("gcons", ps) if rep_kind != "none" else None)
     resp_it = iter(common.driver_batch([ln for ln in lines if ln is not None]))
     resp = [next(resp_it) if ln is not None else None for ln in lines]
     for k, c in enumerate(cases):
-        pepsets = metas[k]
-        r0, r1, rs, rw, rq = resp[offs[k]: offs[k] + 5]
+        raw_pepsets, pepsets, rep_kind = metas[k]
+        r0, r1, rs, rw, rq, rr, rc = resp[offs[k]: offs[k] + 7]
         wf = a_bool(rw.strip())
         try:
             model = parse_model(r0)
             model_rev = parse_model(r1)
             mseq = parse_model(rq) if rq is not None else "skipped"
+            mrend = parse_render(rr) if rr is not None else "skipped"
         except Exception as e:  # driver glue problem: framework error, surface it
             raise RuntimeError(f"cannot parse driver answer: {e}")
+        if rc is not None and a_bool(rc.strip()) != (rep_kind == "identical"):
+            raise RuntimeError(f"harness and driver disagree on the consistency of repeated entries: {raw_pepsets}")
+        if (rep_kind == "identical") != (wf and rep_kind != "none"):
+            raise RuntimeError(f"repeated entries: gwf of the distinct proteins is {wf} for {rep_kind}: {raw_pepsets}")
         spec = parse_spec(rs)
         raw = impl_read(c, c["entries"])
         nprot = sum(1 for _, p in pepsets if p)
@@ -517,6 +605,9 @@ def eval_cases(chk, cases, perms=2, light=False):
             chk.count("enzyme_form", call.get("enz", "str"))
             chk.count("files_form", call.get("files", "str/list"))
             chk.count("defaults_omitted", bool(call.get("omit")))
+            chk.count("decoy_prefix", "empty" if c["prefix"] == "" else "non-empty")
+            chk.count("repeated_entries", rep_kind)
+            chk.count("min_length", "0" if c["digest"]["minl"] == 0 else ">=1")
         if mseq != "skipped":
             chk.count("seq_oracle", "wf" if wf else "dup-names")
         if not wf:
@@ -541,6 +632,10 @@ def eval_cases(chk, cases, perms=2, light=False):
             elif isinstance(mseq, dict) and (ci["unique"], ci["shared"], ci["pmap"], ci["has_decoys"]) != (
                     mseq["unique"], mseq["shared"], mseq["pmap"], mseq["has_decoys"]):
                 chk.corr_break("groupseq", dict(case=c, impl=show(ci), model=show(mseq), note="duplicate names"))
+            elif isinstance(mrend, dict) and (raw[1], raw[2]) != (mrend["unique"], mrend["shared"]):
+                chk.corr_break("grender", dict(case=c, impl=dict(peptide_map=raw[1], shared_peptides=raw[2]),
+                                               model=dict(peptide_map=mrend["unique"], shared_peptides=mrend["shared"]),
+                                               note="duplicate names"))
             continue
         # ---- inside the quantifier ----
         if raw[0] == "exc":
@@ -552,6 +647,8 @@ def eval_cases(chk, cases, perms=2, light=False):
                     chk.corr_break("group", dict(case=c, impl=list(raw), model="ok"))
                 elif mseq not in ("skipped", None):
                     chk.corr_break("groupseq", dict(case=c, impl=list(raw), model="ok"))
+                elif mrend not in ("skipped", "reject-only-decoys"):
+                    chk.corr_break("grender", dict(case=c, impl=list(raw), model="ok"))
                 continue
             chk.case(None, None)
             chk.spec_violation("exception:" + raw[1], dict(case=c, error=raw[2], pepsets=pepsets,
@@ -594,14 +691,27 @@ def eval_cases(chk, cases, perms=2, light=False):
         if mseq != "skipped":
             if mseq is None or mseq == "keyerror":
                 chk.corr_break("groupseq", dict(case=c, impl=show(ci), model=f"reject:{mseq}"))
-            elif mseq["pepsets"] != [(nm, frozenset(ps)) for nm, ps in pepsets]:
+            elif mseq["pepsets"] != [(nm, frozenset(ps)) for nm, ps in raw_pepsets]:
                 chk.corr_break("digest-oracle", dict(
-                    case=c, mokapot_digest=pepsets,
+                    case=c, mokapot_digest=raw_pepsets,
                     lean_digest=[[nm, sorted(ps)] for nm, ps in mseq["pepsets"]],
                     note="mokapot.digest differs from the Lean digest model on an entry's sequence"))
             elif (ci["unique"], ci["shared"], ci["pmap"], ci["has_decoys"]) != (
                     mseq["unique"], mseq["shared"], mseq["pmap"], mseq["has_decoys"]):
                 chk.corr_break("groupseq", dict(case=c, pepsets=pepsets, impl=show(ci), model=show(mseq)))
+        # 2c. the strings themselves: `peptide_map` values (", "-joined names) and `shared_peptides` values
+        # ("; "-joined *sorted* group names) verbatim against the model's rendering; the attributes of the
+        # Proteins object that are not maps
+        if mrend != "skipped":
+            chk.count("rendered_compared")
+            if not isinstance(mrend, dict):
+                chk.corr_break("grender", dict(case=c, impl=show(ci), model=f"reject:{mrend}"))
+            elif (raw[1], raw[2], raw[3], raw[4]) != (mrend["unique"], mrend["shared"], mrend["pmap"], mrend["has_decoys"]):
+                chk.corr_break("grender", dict(case=c, pepsets=raw_pepsets,
+                                               impl=dict(peptide_map=raw[1], shared_peptides=raw[2]),
+                                               model=dict(peptide_map=mrend["unique"], shared_peptides=mrend["shared"])))
+        if raw[5] != c["prefix"]:
+            chk.corr_break("proteins-object", dict(case=c, impl=dict(decoy_prefix=raw[5]), model=dict(decoy_prefix=c["prefix"])))
         # 3. entry-order independence on the real code
         n = len(c["entries"])
         for t in range(perms):
@@ -621,29 +731,32 @@ def eval_cases(chk, cases, perms=2, light=False):
                                    dict(case=c, order=order, error=list(raw2), clause="entry order changes outcome"))
                 break
             s2 = setform(canon_impl(raw2))
-            if s2 != si:
+            if s2 != si or raw2[4] != raw[4]:
                 chk.spec_violation("order-dependence", dict(
                     case=c, order=order, pepsets=pepsets, impl=show(ci), impl_permuted=show(canon_impl(raw2)),
-                    clause="grouping depends on the order of the FASTA entries"))
+                    clause="grouping (or has_decoys) depends on the order of the FASTA entries"))
                 break
 
 
 def hash_seed_runs(chk, cases, seeds):
     """the same cases under other PYTHONHASHSEEDs (set iteration orders) in subprocesses"""
     logging.disable(logging.CRITICAL)
-    base, keep, base_raw = [], [], []
+    base, keep, base_raw, base_keys = [], [], [], []
     for c in cases:
         raw = impl_read(c, c["entries"])
         if raw[0] == "ok":
             keep.append(c)
             base.append(json.loads(json.dumps(jsonable_canon(canon_impl(raw)))))
-            base_raw.append(sorted(raw[2].items()))
+            base_raw.append(json.loads(json.dumps([sorted(raw[2].items()), sorted(raw[1].items())])))
+            base_keys.append(list(raw[1]) + list(raw[2]))
     order_differs = 0
     for s in seeds:
         outs = run_hashseed(keep, s)
-        for c, b, br, o in zip(keep, base, base_raw, outs):
+        for c, b, br, bk, o in zip(keep, base, base_raw, base_keys, outs):
             chk.count("hashseed_runs")
             raw_sh = o.pop("raw_shared", None)
+            raw_un = o.pop("raw_unique", None)
+            keys = o.pop("key_order", None)
             if "exc" in o:
                 chk.spec_violation("hash-dependence:exception", dict(case=c, hashseed=s, error=o,
                                                                      clause="hash seed changes outcome"))
@@ -651,12 +764,20 @@ def hash_seed_runs(chk, cases, seeds):
             if o != b:
                 chk.spec_violation("hash-dependence", dict(case=c, hashseed=s, impl_seed0=b, impl_other=o,
                                                            clause="grouping depends on hash iteration order"))
-            if raw_sh is not None and [list(x) for x in br] != raw_sh:
+            elif [raw_sh, raw_un] != br:
+                # C16_rendered_hash_independent: the *strings* are the same under every set iteration order (the
+                # group names are joined in processing order, the groups of a shared peptide are sorted)
+                chk.spec_violation("hash-dependence:raw-strings", dict(
+                    case=c, hashseed=s, impl_seed0=dict(shared_peptides=br[0], peptide_map=br[1]),
+                    impl_other=dict(shared_peptides=raw_sh, peptide_map=raw_un),
+                    clause="the strings in peptide_map / shared_peptides depend on hash iteration order"))
+            if keys is not None and keys != bk:
                 order_differs += 1
     chk.extra["hash_seeds"] = (
-        f"{len(keep)} cases x PYTHONHASHSEED in {list(seeds)} (subprocess), compared as sets with the in-process "
-        f"run (seed {os.environ.get('PYTHONHASHSEED', '?')}); in {order_differs} runs the raw '; '-joined shared "
-        f"strings differed from the in-process ones, i.e. the set iteration order really varied")
+        f"{len(keep)} cases x PYTHONHASHSEED in {list(seeds)} (subprocess), compared as sets and as raw strings "
+        f"with the in-process run (seed {os.environ.get('PYTHONHASHSEED', '?')}); in {order_differs} runs the key "
+        f"order of the two peptide dicts differed from the in-process one, i.e. the set iteration order really "
+        f"varied")
 
 
 def show(c):
@@ -718,6 +839,7 @@ def impl_direct(case):
     from mokapot.parsers.fasta import _group_proteins
 
     proteins = {nm: set(ps) for nm, ps in case["prots"]}
+    before = [(nm, set(ps)) for nm, ps in proteins.items()]
     peptides = defaultdict(set)
     for p, qs in case["pm"]:
         peptides[p]  # key order as given
@@ -728,7 +850,7 @@ def impl_direct(case):
     except Exception as e:  # noqa: BLE001
         return ("exc", type(e).__name__, str(e)[:200])
     return ("ok", {k: set(v) for k, v in grouped.items()}, [(p, set(v)) for p, v in ret.items()],
-            ret is peptides)
+            ret is peptides, [(nm, set(ps)) for nm, ps in proteins.items()] == before)
 
 
 def direct_clause_check(case, grouped, index):
@@ -771,6 +893,17 @@ def parse_direct(resp):
                 index=[(a_str(p), frozenset(tuple(a_str(x) for x in g) for g in ks)) for p, ks in ix])
 
 
+def parse_direct_render(resp):
+    if resp.strip() == "reject-keyerror":
+        return "keyerror"
+    v = dec(resp)
+    if not (isinstance(v, list) and len(v) == 2):
+        raise RuntimeError("driver: " + resp[:200])
+    gs, ix = v
+    return ({a_str(g): frozenset(a_str(x) for x in S) for g, S in gs},
+            [(a_str(p), frozenset(a_str(g) for g in ks)) for p, ks in ix])
+
+
 def direct_setform(d):
     return (frozenset((frozenset(g), S) for g, S in d["groups"].items()),
             {p: frozenset(frozenset(g) for g in ks) for p, ks in d["index"]})
@@ -790,15 +923,17 @@ def eval_direct(chk, cases, light=False):
     """_group_proteins: implementation vs spec (restated + driver `gdspec`) vs model (`gdirect`)"""
     logging.disable(logging.CRITICAL)
     lines = []
-    for c in cases:
+    for k, c in enumerate(cases):
         keys = [p for p, _ in c["pm"]]
         lines += [req("gdirect", 0, c["prots"], c["pm"]), req("gdirect", 1, c["prots"], c["pm"]),
-                  req("gdspec", c["prots"], keys), req("gdwf", c["prots"], c["pm"])]
+                  req("gdspec", c["prots"], keys), req("gdwf", c["prots"], c["pm"]),
+                  req("gdrender", k % 2, c["prots"], c["pm"])]
     resp = common.driver_batch(lines)
     for k, c in enumerate(cases):
-        r0, r1, rs, rw = resp[4 * k: 4 * k + 4]
+        r0, r1, rs, rw, rr = resp[5 * k: 5 * k + 5]
         try:
             model, model_rev, spec = parse_direct(r0), parse_direct(r1), parse_direct(rs)
+            mrend = parse_direct_render(rr)
         except Exception as e:
             raise RuntimeError(f"cannot parse driver answer: {e}")
         if not a_bool(rw.strip()):  # the generator only builds inputs inside the precondition
@@ -846,6 +981,33 @@ def eval_direct(chk, cases, light=False):
             chk.corr_break("gdirect", dict(case=c, impl=show_direct(impl), model=show_direct(model)))
         elif model_rev == "keyerror" or direct_setform(model_rev) != direct_setform(model):
             chk.corr_break("gdirect-enum", dict(case=c, note="model result depends on the enumeration order"))
+        # 3. the dict keys / set elements as the strings they are (", "-joined names), either enumeration
+        impl_str = ({g: frozenset(S) for g, S in raw[1].items()}, [(p, frozenset(ks)) for p, ks in raw[2]])
+        if mrend == "keyerror" or impl_str != mrend:
+            chk.corr_break("gdrender", dict(case=c, impl=show_direct(impl),
+                                            model=mrend if mrend == "keyerror" else
+                                            dict(grouped={g: sorted(S) for g, S in mrend[0].items()},
+                                                 peptides={p: sorted(ks) for p, ks in mrend[1]})))
+        # 3b. C16_peptide_dicts_independent_of_index_order: the same proteins with the `peptides` dict filled in
+        # another key order and other set insertion orders give the same two return values as dicts
+        if not light or k % 4 == 0:
+            pm2 = [[p, list(qs)] for p, qs in c["pm"]]
+            chk.rng.shuffle(pm2)
+            for e in pm2:
+                chk.rng.shuffle(e[1])
+            raw2 = impl_direct(dict(c, pm=pm2))
+            chk.count("direct_index_reordered")
+            if raw2[0] != "ok" or raw2[1] != raw[1] or dict(raw2[2]) != dict(raw[2]):
+                chk.spec_violation("group_proteins:index-order-dependence", dict(
+                    case=c, peptides_reordered=pm2, impl=show_direct(impl),
+                    impl_reordered=list(raw2[:2]) if raw2[0] != "ok" else dict(
+                        grouped={g: sorted(S) for g, S in raw2[1].items()},
+                        peptides={p: sorted(ks) for p, ks in raw2[2]}),
+                    clause="_group_proteins depends on the key order / set order of its `peptides` argument"))
+                continue
+        # 4. the caller's `proteins` dict is left as it was (only `peptides` is documented to be modified)
+        if not raw[4]:
+            chk.corr_break("gdirect-args", dict(case=c, note="_group_proteins modified its `proteins` argument"))
 
 
 def direct_exhaustive_cases(scopes, orders):
@@ -928,6 +1090,32 @@ def corpus_cases():
     return []
 
 
+def builtin_cases():
+    """hand-picked cases of the second extension (run first, like the corpus)"""
+    dg = dict(enzyme="[KR]", mc=0, clip=False, minl=1, maxl=50, semi=False)
+    fmt = dict(wrap=0, desc=False, nfiles=1, trail=True)
+    tag = dict(pat="corpus", dmode="corpus", dg="corpus", nstyle="corpus")
+
+    def case(entries, prefix="decoy_", digest=dg, fmt=fmt, note=""):
+        return dict(tag, entries=entries, prefix=prefix, digest=dict(digest), fmt=dict(fmt), note=note)
+
+    return [
+        case([["P", "AAAKAACK"], ["Q", "AAAK"], ["P", "AAAKAACK"]], fmt=dict(fmt, nfiles=3),
+             note="the same protein in two files (identical repeat)"),
+        case([["P", "AAAKAACK"], ["decoy_P", "AAAK"], ["P", "AAAKAACK"], ["decoy_P", "AAAK"]],
+             note="the whole FASTA given twice"),
+        case([["P", "AAAKAACK"], ["Q", "AAAK"]], prefix="", note="empty decoy prefix: every name is a decoy name"),
+        case([["P", "AAAKAACK"], ["DECOY_P", "AAAK"], ["decoy_P", "AACK"]], note="prefix in the other letter case is a target"),
+        case([["decoy_", "AAAKAACK"], ["Q", "AAAK"]], note="a name equal to the prefix is a decoy"),
+        case([["P", "AAAKAACK"], ["Q", "AADK"], ["R", "AAAC"]], digest=dict(dg, minl=0),
+             note="min_length = 0: P and Q share the empty peptide, R does not end in K"),
+        case([["z", "AAAKAACK"], ["Y", "AAAKAADK"], ["x", "AAAKAAEK"], ["W", "AAAK"]],
+             note="a peptide shared by three groups whose sorted name order differs from the insertion order"),
+        case([["P", "MAAAKAACK"], ["Q", "AAAKAACK"]], digest=dict(dg, mc=1, clip=True, semi=True, minl=4),
+             note="clip + semi + missed cleavage together"),
+    ]
+
+
 def minimise(chk):
     """shrink the first spec violation: drop entries while the same signature keeps failing"""
     if not chk.spec_violations:
@@ -996,15 +1184,16 @@ def search(chk):
 
 def main(chk, args):
     build = common.build_and_audit("C16", extra_targets=["MokapotVerif.Mutants.Grouping",
-                                                         "MokapotVerif.Mutants.GroupingExt"])
+                                                         "MokapotVerif.Mutants.GroupingExt",
+                                                         "MokapotVerif.Mutants.GroupingStr"])
     if not build.driver_ok:
         chk.finish(build, RULE)
     rng = chk.rng
     try:
-        cases = corpus_cases()
+        cases = corpus_cases() + builtin_cases()
         quick = chk.tier == "quick"
         n = 3000 if quick else 20000
-        cases += [gen_case(rng, big=(i % 4 == 0), allow_dups=(i % 25 == 7)) for i in range(n)]
+        cases += [gen_case(rng, big=(i % 4 == 0), allow_dups=(i % 25 == 7), repeat=(i % 25 == 17)) for i in range(n)]
         for i in range(0, len(cases), 3000):
             eval_cases(chk, cases[i:i + 3000], perms=2 if quick else 3)
         wf_cases = [c for c in cases if len({e[0] for e in c["entries"]}) == len(c["entries"])]
@@ -1030,8 +1219,11 @@ def main(chk, args):
         "sequences, varied wrapping/descriptions/files) but not modelled",
         "CPython dict keeps insertion order, sorted() is stable, set operations behave as documented; the "
         "enumeration order of sets is a universally quantified parameter of the model",
-        "protein names contain no blank (guaranteed by _parse_protein), so ', '-joined group names and '; '-joined "
-        "shared lists split back uniquely",
+        "protein names contain no blank (guaranteed by _parse_protein), so ', '-joined group names split back "
+        "uniquely (C16_group_name_injective) and '; ' never occurs inside a group name; the raw strings are "
+        "compared verbatim with the model's rendering (op grender) besides",
+        "a protein listed several times with the same peptide set is inside the property "
+        "(C16_repeated_entries_meet_spec); the same name with different peptide sets is outside (tallied)",
     ]
     chk.finish(build, RULE, search=search, lc=lc,
                trusted_extra=["mokapot.digest (C17), CPython dict/set/sorted, file I/O"])
